@@ -108,6 +108,10 @@ H("s7_oprf_key_from_seed_long_cred", "verif_kani_opaque::s7_oprf_key_from_seed_l
   "same with credential identifiers of 9 and 20 bytes (longer than the hash output and than a hash block): no truncation",
   "seed 8 bytes, credential identifier 9 / 20 symbolic bytes", covers=["reached"], loops=[(r"derive_key", 2)])
 
+H("s14_derive_auth_keypair_loop", "h_derive::s14_derive_auth_keypair_loop",
+  "generic KeGroup::derive_auth_keypair: retries with counters 0..255 until a non-zero scalar, passes seed||I2OSP(33,2)||info||counter and DST 'DeriveKeyPair'||'OPRFV1-'||0||'-'||ID, errors after 256 attempts",
+  "scripted group returning zero for the first k in {0..3, 255, 256, 300} attempts; seed symbolic", covers=["first attempt", "last attempt", "gives up"])
+
 # ---- S12
 H("s12_i2osp_all_usize", "h_inputs::s12_i2osp_all_usize", "I2OSP(n,1)/I2OSP(n,2): Ok <=> n fits, big-endian value", "every usize n",
   covers=["255 fits", "256 refused", "65535 fits", "65536 refused"])
@@ -289,7 +293,7 @@ PROPERTIES["C08"] = dict(
     thorough=["w2_server_login_start_unregistered_ids_ctx", "w2_server_login_start_external_key_unregistered", "w2_server_login_start_record"] + W3[1:],
     assumptions=["'unpredictably' and 'the client always fails on a fake response' are probabilistic statements and are not decided; decided: the fake record (fresh masking key, zero envelope, fake key), the same evaluation function and code path as for a registered user, the error mapping to InvalidLoginError, and exactness of the server's final check"])
 PROPERTIES["C09"] = dict(
-    quick=SELF + ["s7_oprf_key_from_seed", "s4_server_reg_start_cred2", "s2_client_reg_start_pw2", "s9_seal_raw", "s10_expand_label_limits", "g3_x25519_derive"],
+    quick=SELF + ["s7_oprf_key_from_seed", "s4_server_reg_start_cred2", "s2_client_reg_start_pw2", "s9_seal_raw", "s10_expand_label_limits", "g3_x25519_derive", "s14_derive_auth_keypair_loop"],
     thorough=LEMMAS + S6[:2] + ["s7_oprf_key_from_seed_long_cred", "s8_mask_response", "s8_unmask_response", "s3_client_login_start_pw2", "s5_server_setup_new", "s13_dummy_record"]
              + S9U + S9W + S10 + ["s11_derive_3dh_keys"] + W1 + W2 + W3 + D_QUICK,
     assumptions=["conformance is to the reference model harness/incrate/spec.rs, typed in from RFC 9807 / RFC 9497 (labels, layouts, formulas), over the model suite; SHA-2 and curve arithmetic of the 20 real suites are pinned only by the repository's own RFC vectors"])
@@ -333,6 +337,6 @@ PROPERTIES["C18"] = dict(
     thorough=["w2_server_login_start_external_key_unregistered", "d_all_setup_xk"],
     assumptions=["the external key is the model MSecretKey (2-byte handle, call log, failure at the n-th call with a caller-chosen code)"])
 PROPERTIES["C19"] = dict(
-    quick=SELF + ["g1_x25519_sk_decode", "g1_x25519_sk_lengths", "g3_x25519_derive", "g2_x25519_pk_roundtrip", "g5_p256_sk_decode", "g4_ristretto_lengths_identity"],
+    quick=SELF + ["g1_x25519_sk_decode", "g1_x25519_sk_lengths", "g3_x25519_derive", "g2_x25519_pk_roundtrip", "g5_p256_sk_decode", "g4_ristretto_lengths_identity", "s14_derive_auth_keypair_loop"],
     thorough=["g4_ristretto_sk_decode", "g6_p256_pk_tag_cases", "s9_keys_internal"],
     assumptions=["Diffie-Hellman symmetry and public-key consistency on the five real groups need >= 255 dependent symbolic field multiplications: outside reach, they stay with the repository's proptests; decided: key encodings round-trip, seeded derivation for Curve25519 == RFC 7748 clamp on all 2^256 seeds, scalar range checks"])
